@@ -205,6 +205,11 @@ def classify(text):
             unknown = True
         if unknown:
             return ("either", None)
+        reach = {"EIP712Domain", primary} | eip712.dependencies(types, primary) | eip712.dependencies(types, "EIP712Domain")
+        if any(len({mn for mn, _ in types[n]}) != len(types[n]) for n in reach):
+            # a struct type that names a member twice is itself malformed: what it hashes to is unspecified (a document that is
+            # non-conforming for another reason was already refused above)
+            return ("either", None)
         cache = {}
         ds = eip712.hash_struct(types, "EIP712Domain", dv, cache)
         mh = eip712.hash_struct(types, primary, mv, cache)
